@@ -18,6 +18,7 @@ import (
 	"os"
 	"os/exec"
 	"path/filepath"
+	"reflect"
 	"sort"
 	"strings"
 	"sync"
@@ -304,10 +305,51 @@ func mkConfig(c cfgIn) *config.Config {
 		EnableEndpointSliceAPI: c.Slice, HasGatewayA2: c.A2, HasGatewayB1: c.B1, HasGatewayV1: c.V1, HasTCPRouteA2: c.TCPR}
 }
 
-func run(in input) (obs []stepObs, otherLists int) {
+// delivered is one batch exactly as getChangedObjects returned it (no copy), with the deep
+// snapshot taken at delivery time.
+type delivered struct {
+	ch   *convtypes.ChangedObjects
+	snap *batchObs
+	step int
+}
+
+// diffBatch tells which part of a delivered batch differs from its snapshot.
+func diffBatch(snap, cur *batchObs) string {
+	var parts []string
+	if snap.Data != cur.Data {
+		parts = append(parts, fmt.Sprintf("ConfigMap data tokens %v -> %v", snap.Data, cur.Data))
+	}
+	if !reflect.DeepEqual(snap.Objects, cur.Objects) {
+		parts = append(parts, fmt.Sprintf("Objects %v -> %v", snap.Objects, cur.Objects))
+	}
+	if !reflect.DeepEqual(snap.Links, cur.Links) {
+		parts = append(parts, fmt.Sprintf("Links %v -> %v", snap.Links, cur.Links))
+	}
+	if !reflect.DeepEqual(snap.Lists, cur.Lists) {
+		parts = append(parts, fmt.Sprintf("per-kind lists %v -> %v", snap.Lists, cur.Lists))
+	}
+	if snap.Full != cur.Full {
+		parts = append(parts, "NeedFullSync")
+	}
+	return strings.Join(parts, "; ")
+}
+
+// run fires the history on the real watchers. Every delivered batch is kept as returned;
+// all of them are read again at every later swap and at the end of the history: `final` are
+// the re-reads at the end, `mutated` describes the first difference with a snapshot.
+func run(in input) (obs []stepObs, final []*batchObs, mutated string, otherLists int) {
 	b := newBuilder()
 	w := reconciler.VerifNewWatchers(context.Background(), mkConfig(in.Cfg), validator{})
-	for _, s := range in.Steps {
+	var dl []delivered
+	reread := func(at string) {
+		for k, d := range dl {
+			cur, _ := project(b, d.ch)
+			if df := diffBatch(d.snap, cur); df != "" && mutated == "" {
+				mutated = fmt.Sprintf("batch %d (delivered by step %d) read again %s differs from what was delivered: %s", k, d.step, at, df)
+			}
+		}
+	}
+	for i, s := range in.Steps {
 		var so stepObs
 		switch s.Op {
 		case "swap":
@@ -315,6 +357,8 @@ func run(in input) (obs []stepObs, otherLists int) {
 			bo, other := project(b, ch)
 			otherLists += other
 			so.Batch = bo
+			reread(fmt.Sprintf("at the swap of step %d", i))
+			dl = append(dl, delivered{ch: ch, snap: bo, step: i})
 		case "create":
 			so.Accepted = w.FireCreate(b.build(s.Kind, s.New))
 		case "update":
@@ -329,6 +373,11 @@ func run(in input) (obs []stepObs, otherLists int) {
 			so.Notifs = []bool{}
 		}
 		obs = append(obs, so)
+	}
+	reread("at the end of the history")
+	for _, d := range dl {
+		cur, _ := project(b, d.ch)
+		final = append(final, cur)
 	}
 	return
 }
@@ -702,37 +751,40 @@ func tok(t int) string {
 	return "(Some " + hx.N(t) + ")"
 }
 
-func coqCase(id int, in input, obs []stepObs) string {
+func coqBatch(b *batchObs) string {
+	var lists []string
+	for _, ln := range lnames {
+		var ids []string
+		for _, x := range b.Lists[ln] {
+			if x < 0 {
+				x = 999999
+			}
+			ids = append(ids, hx.N(x))
+		}
+		lists = append(lists, hx.Tuple(ln, hx.List(ids)))
+	}
+	var objs []string
+	for _, e := range b.Objects {
+		objs = append(objs, hx.Str(e))
+	}
+	var links []string
+	for _, r := range hx.SortedKeys(b.Links) {
+		var ns []string
+		for _, n := range b.Links[r] {
+			ns = append(ns, hx.Str(n))
+		}
+		links = append(links, hx.Tuple(hx.Str(r), hx.List(ns)))
+	}
+	return fmt.Sprintf("{| b_gcur := %s; b_gnew := %s; b_tcur := %s; b_tnew := %s; b_lists := %s; b_full := %s; b_objects := %s; b_links := %s |}",
+		tok(b.Data[0]), tok(b.Data[1]), tok(b.Data[2]), tok(b.Data[3]), hx.List(lists), hx.Bool(b.Full), hx.List(objs), hx.List(links))
+}
+
+func coqCase(id int, in input, obs []stepObs, final []*batchObs) string {
 	var steps, os []string
 	for i, s := range in.Steps {
 		if s.Op == "swap" {
 			steps = append(steps, "Swap")
-			b := obs[i].Batch
-			var lists []string
-			for _, ln := range lnames {
-				var ids []string
-				for _, x := range b.Lists[ln] {
-					if x < 0 {
-						x = 999999
-					}
-					ids = append(ids, hx.N(x))
-				}
-				lists = append(lists, hx.Tuple(ln, hx.List(ids)))
-			}
-			var objs []string
-			for _, e := range b.Objects {
-				objs = append(objs, hx.Str(e))
-			}
-			var links []string
-			for _, r := range hx.SortedKeys(b.Links) {
-				var ns []string
-				for _, n := range b.Links[r] {
-					ns = append(ns, hx.Str(n))
-				}
-				links = append(links, hx.Tuple(hx.Str(r), hx.List(ns)))
-			}
-			os = append(os, fmt.Sprintf("OSwap {| b_gcur := %s; b_gnew := %s; b_tcur := %s; b_tnew := %s; b_lists := %s; b_full := %s; b_objects := %s; b_links := %s |}",
-				tok(b.Data[0]), tok(b.Data[1]), tok(b.Data[2]), tok(b.Data[3]), hx.List(lists), hx.Bool(b.Full), hx.List(objs), hx.List(links)))
+			os = append(os, "OSwap "+coqBatch(obs[i].Batch))
 			continue
 		}
 		ty := map[string]string{"create": "ECreate", "update": "EUpdate", "delete": "EDelete", "generic": "EGeneric"}[s.Op]
@@ -747,10 +799,14 @@ func coqCase(id int, in input, obs []stepObs) string {
 		}
 		os = append(os, fmt.Sprintf("OEv %s %s", hx.N(obs[i].Accepted), hx.List(nt)))
 	}
+	var fin []string
+	for _, b := range final {
+		fin = append(fin, coqBatch(b))
+	}
 	c := in.Cfg
-	return fmt.Sprintf("{| wid := %s; wcfg := {| cm_name := %s; tcp_name := %s; publish := %s; slice_api := %s; has_a2 := %s; has_b1 := %s; has_v1 := %s; has_tcp := %s |};\n   wsteps := %s;\n   wobs_l := %s |}",
+	return fmt.Sprintf("{| wid := %s; wcfg := {| cm_name := %s; tcp_name := %s; publish := %s; slice_api := %s; has_a2 := %s; has_b1 := %s; has_v1 := %s; has_tcp := %s |};\n   wsteps := %s;\n   wobs_l := %s;\n   wfinal := %s |}",
 		hx.N(id), hx.Str(c.CM), hx.Str(c.TCP), hx.Str(c.Publish), hx.Bool(c.Slice), hx.Bool(c.A2), hx.Bool(c.B1), hx.Bool(c.V1), hx.Bool(c.TCPR),
-		hx.List(steps), hx.List(os))
+		hx.List(steps), hx.List(os), hx.List(fin))
 }
 
 // ---------------------------------------------------------------- concurrent run
@@ -761,6 +817,7 @@ type concResult struct {
 	Swaps        int    `json:"swaps"`
 	NonEmpty     int    `json:"non_empty_batches"`
 	Failure      string `json:"failure,omitempty"`
+	Mutated      string `json:"mutated_after_delivery,omitempty"`
 	MaxBatchSize int    `json:"max_batch_links"`
 }
 
@@ -777,7 +834,20 @@ func concurrent(seed int64, workers, perWorker int) concResult {
 		ing      *networking.Ingress
 	}
 	var completed int64
-	var batches []*convtypes.ChangedObjects
+	var batches []*convtypes.ChangedObjects // kept exactly as returned
+	type csnap struct {
+		objects []string
+		links   map[string][]string
+		ingAdd  []*networking.Ingress
+	}
+	var snaps []csnap // deep copies taken by the swapper right after each Swap, as a reconciliation would read it
+	snapshot := func(b *convtypes.ChangedObjects) csnap {
+		c := csnap{objects: append([]string{}, b.Objects...), links: map[string][]string{}, ingAdd: append([]*networking.Ingress{}, b.IngressesAdd...)}
+		for r, ns := range b.Links {
+			c.links[string(r)] = append([]string{}, ns...)
+		}
+		return c
+	}
 	stop := make(chan struct{})
 	swapperDone := make(chan struct{})
 	go func() {
@@ -788,7 +858,9 @@ func concurrent(seed int64, workers, perWorker int) concResult {
 				return
 			default:
 			}
-			batches = append(batches, w.Swap())
+			b := w.Swap()
+			batches = append(batches, b)
+			snaps = append(snaps, snapshot(b))
 			atomic.AddInt64(&completed, 1)
 			time.Sleep(time.Duration(20+len(batches)%7*15) * time.Microsecond)
 		}
@@ -834,9 +906,20 @@ func concurrent(seed int64, workers, perWorker int) concResult {
 	wg.Wait()
 	close(stop)
 	<-swapperDone
-	batches = append(batches, w.Swap())
+	last := w.Swap()
+	batches = append(batches, last)
+	snaps = append(snaps, snapshot(last))
 	res := concResult{Swaps: len(batches)}
+	// delivered batches read again now, after every later event: unchanged
+	for k, b := range batches {
+		cur := snapshot(b)
+		if !reflect.DeepEqual(cur.objects, snaps[k].objects) || !reflect.DeepEqual(cur.links, snaps[k].links) || !reflect.DeepEqual(cur.ingAdd, snaps[k].ingAdd) {
+			res.Mutated = fmt.Sprintf("batch %d of %d read again at the end differs from what was delivered (Objects %d -> %d entries, first difference %s)", k, len(batches), len(snaps[k].objects), len(cur.objects), firstDiff(snaps[k].objects, cur.objects))
+			break
+		}
+	}
 	where := map[string][]int{}
+	whereObj := map[string][]int{}
 	ingWhere := map[*networking.Ingress][]int{}
 	for k, b := range batches {
 		n := 0
@@ -855,20 +938,30 @@ func concurrent(seed int64, workers, perWorker int) concResult {
 		for _, ing := range b.IngressesAdd {
 			ingWhere[ing] = append(ingWhere[ing], k)
 		}
+		for _, e := range b.Objects {
+			if j := strings.Index(e, ":"); j >= 0 {
+				whereObj[e[j+1:]] = append(whereObj[e[j+1:]], k)
+			}
+		}
 	}
 	for g := range evs {
 		for _, e := range evs[g] {
 			res.Events++
 			got := where["default/"+e.name]
+			gotObj := whereObj["default/"+e.name]
 			if e.accepted == 0 {
-				if len(got) != 0 {
-					res.Failure = fmt.Sprintf("rejected event %s is in batches %v", e.name, got)
+				if len(got) != 0 || len(gotObj) != 0 {
+					res.Failure = fmt.Sprintf("rejected event %s is in batches %v (links) %v (objects)", e.name, got, gotObj)
 				}
 				continue
 			}
 			res.Accepted++
 			if len(got) != 1 {
 				res.Failure = fmt.Sprintf("accepted event %s is in batches %v (lost or duplicated)", e.name, got)
+				continue
+			}
+			if len(gotObj) != 1 || gotObj[0] != got[0] {
+				res.Failure = fmt.Sprintf("accepted event %s has its link in batch %d and its object entry in batches %v (lost, duplicated or overwritten)", e.name, got[0], gotObj)
 				continue
 			}
 			if int64(got[0]) < e.c0 || int64(got[0]) > e.c1+1 {
@@ -882,6 +975,15 @@ func concurrent(seed int64, workers, perWorker int) concResult {
 		}
 	}
 	return res
+}
+
+func firstDiff(a, b []string) string {
+	for i := 0; i < len(a) && i < len(b); i++ {
+		if a[i] != b[i] {
+			return fmt.Sprintf("[%d] %q -> %q", i, a[i], b[i])
+		}
+	}
+	return fmt.Sprintf("lengths %d -> %d", len(a), len(b))
 }
 
 // raceRun builds this harness with the race detector and runs the concurrent scenario in it.
@@ -914,7 +1016,7 @@ func main() {
 		r := concurrent(o.Seed, 8, 4000)
 		b, _ := json.Marshal(r)
 		fmt.Println(string(b))
-		if r.Failure != "" {
+		if r.Failure != "" || r.Mutated != "" {
 			os.Exit(3)
 		}
 		return
@@ -939,7 +1041,7 @@ func main() {
 		}
 	}
 	for _, in := range inputs {
-		obs, other := run(in)
+		obs, final, mutated, other := run(in)
 		nonEmpty, accepted := 0, 0
 		for i, s := range in.Steps {
 			if s.Op == "swap" {
@@ -973,13 +1075,31 @@ func main() {
 			res.Count("oracle_fail_" + k)
 			res.Fail(hx.Failure{Key: "C14/" + k, What: what, Input: in, Observed: obs})
 		}
+		// a delivered batch must not change while the rest of the history is fired
+		if mutated != "" {
+			res.Count("oracle_fail_batch-mutated-after-delivery")
+			res.Fail(hx.Failure{Key: "C14/batch-mutated-after-delivery", What: mutated, Input: in, Observed: map[string]interface{}{"at_delivery": obs, "read_again_at_the_end": final}})
+		}
+		// and the partition property must hold of the batches as a reconciliation reads them later
+		obsEnd := append([]stepObs{}, obs...)
+		nb := 0
+		for i, s := range in.Steps {
+			if s.Op == "swap" {
+				obsEnd[i].Batch = final[nb]
+				nb++
+			}
+		}
+		if k, what := oracle(in, obsEnd); k != "" {
+			res.Count("oracle_fail_late_" + k)
+			res.Fail(hx.Failure{Key: "C14/" + k, What: "batches read again at the end of the history: " + what, Input: in, Observed: obsEnd})
+		}
 		if other > 0 {
 			res.Count("lists_outside_model_filled")
 			res.Fail(hx.Failure{Key: "C14/unmodelled-list", What: "a per-kind list that no handler fills in the model was not empty", Input: in, Observed: obs})
 		}
 		if !o.Search {
-			in, obs := in, obs
-			cw.Add(func(id int) string { return coqCase(id, in, obs) }, in)
+			in, obs, final := in, obs, final
+			cw.Add(func(id int) string { return coqCase(id, in, obs, final) }, in)
 		}
 	}
 	cw.Flush()
@@ -995,6 +1115,9 @@ func main() {
 			cr := concurrent(o.Seed+int64(r), 8, per)
 			crs = append(crs, cr)
 			res.OracleChecks++
+			if cr.Mutated != "" {
+				res.Fail(hx.Failure{Key: "C14/batch-mutated-after-delivery", What: "concurrent run: " + cr.Mutated, Input: map[string]interface{}{"concurrent": true, "seed": o.Seed + int64(r), "workers": 8, "per_worker": per}})
+			}
 			if cr.Failure != "" {
 				res.Fail(hx.Failure{Key: "C14/concurrent-partition", What: cr.Failure, Input: map[string]interface{}{"concurrent": true, "seed": o.Seed + int64(r), "workers": 8, "per_worker": per}})
 			}
